@@ -312,6 +312,7 @@ void ExecImpl::op_call(const Op& op) {
 
   // ---------- strict: rejected by the model ----------
   if (cat != ACCEPT) {
+    if (depth == 1) ctx_rejected_call = true;   // whatever is found changed after this step is C01's business too
     if (!real_rejected) {
       fail(kind_props("C01").c_str(), "accepted_but_model_rejects",
            std::string("call was accepted (") + outcome_name(o.outcome) + " " + std::to_string(o.value) + o.sval + ") but the model rejects it as " +
@@ -431,7 +432,8 @@ void ExecImpl::op_call(const Op& op) {
   }
   // OK report (C16)
   {
-    if (o.oks.size() != 1) { fail("C16", "ok_count", std::to_string(o.oks.size()) + " OK reports for one accepted call; " + call_desc()); return; }
+    const bool threw = o.outcome == OC_THREW_FAULT || o.outcome == OC_THREW_STD || o.outcome == OC_THREW_INT;
+    if (o.oks.size() != 1) { fail(threw ? "C16,C08" : "C16", "ok_count", std::to_string(o.oks.size()) + " OK reports for one accepted call; " + call_desc()); return; }
     if (o.oks[0].gen != gen) { fail("C16", "ok_route", "OK report delivered to reporter generation " + std::to_string(o.oks[0].gen) + ", installed is " + std::to_string(gen)); return; }
     if (o.oks[0].msg != d.text) { fail("C16", "ok_text", "OK report text '" + o.oks[0].msg + "' but the call was handled by " + describe_exp(cand)); return; }
     ++st.p_ok_reports;
